@@ -50,7 +50,7 @@ def _local_def(f, name):
 
 def rule12(ctx, rep):
     prog = ctx.prog
-    f = prog.func(SCHED + '._delay')
+    f = prog.nfunc(SCHED + '._delay')
     rep.analysed(f)
     r1 = rep.rule(
         'R-C20-1',
@@ -237,7 +237,7 @@ class _Due(Flow):
 
 def rule3(ctx, rep):
     prog = ctx.prog
-    f = prog.func(SCHED + '.defer')
+    f = prog.nfunc(SCHED + '.defer')
     rep.analysed(f)
     with rep.rule(
         'R-C20-3',
@@ -279,7 +279,7 @@ def rule3(ctx, rep):
 
 def rule4(ctx, rep):
     prog, cg = ctx.prog, ctx.cg
-    f = prog.func(SCHED + '._delay')
+    f = prog.nfunc(SCHED + '._delay')
     with rep.rule(
         'R-C20-4',
         'boot once: the boot token list only grows, in _delay under "not yet booted", and _delay is consumed only by the firing path (defer)',
@@ -373,8 +373,8 @@ def rule4(ctx, rep):
 
 def rule5(ctx, rep, fl):
     prog = ctx.prog
-    f = prog.func(SCHED + '.defer')
-    c = prog.func(SCHED + '.complete')
+    f = prog.nfunc(SCHED + '.defer')
+    c = prog.nfunc(SCHED + '.complete')
     with rep.rule(
         'R-C20-5',
         'recurrence: the status a node is left in when its last target completes is admitted by defer\'s eligibility filter, and every pass of defer re-arms a future defer',
@@ -436,7 +436,7 @@ def check(ctx):
     rule12(ctx, rep)
     fl = rule3(ctx, rep)
     rule4(ctx, rep)
-    rule5(ctx, rep, _Due(ctx.prog, ctx.prog.func(SCHED + '.defer')))
+    rule5(ctx, rep, _Due(ctx.prog, ctx.prog.nfunc(SCHED + '.defer')))
     return rep
 
 
